@@ -621,6 +621,13 @@ impl CraneliftCompiler {
                         };
 
                         self.set_dst(bcx, &insn, res_wide);
+                    } else if ty != I64 {
+                        // No byte swap needed on this host, but the value is still truncated to
+                        // the operand width.
+                        let src = self.insn_dst(bcx, &insn);
+                        let narrow = bcx.ins().ireduce(ty, src);
+                        let wide = bcx.ins().uextend(I64, narrow);
+                        self.set_dst(bcx, &insn, wide);
                     }
                 }
 
